@@ -10,7 +10,8 @@
 (*    sym2 M                M + M^T  ( = 2 M for symmetric M: Eigen's      *)
 (*                          rankUpdate(u,v,a) adds a (u v^T + v u^T) )     *)
 (*    npe_lhs / npe_rhs     X (W + W^T) X^T           ,  X X^T             *)
-(*    lltsa_lhs / lltsa_rhs X (W + W^T) X^T           ,  X J X^T           *)
+(*    lltsa_lhs / lltsa_rhs Xc (W + W^T) Xc^T, Xc = X J ,  X J X^T         *)
+(*    lltsa_lhs_f25         X (W + W^T) X^T           (tree before F42)    *)
 (*    lltsa_lhs_f9          X (W + W^T - 11^T/N) X^T  (tree before F25)    *)
 (*    lpp_lhs / lpp_rhs     X (L + L^T) X^T           ,  X diag(dv) X^T    *)
 (*  Predicates                                                             *)
@@ -46,9 +47,15 @@ Section PencilSpec.
   Definition npe_lhs (N : nat) (X : mat F) (W : sparse F) : mat F := XMXt N X (sym2 (dense_of W)).
   Definition npe_rhs (N : nat) (X : mat F) : mat F := XMXt N X mI.
 
-  (* the property: X M X^T with M the alignment matrix (rankUpdate(u,v,a) doubles it) *)
-  Definition lltsa_lhs (N : nat) (X : mat F) (W : sparse F) : mat F := XMXt N X (sym2 (dense_of W)).
-  (* what the tree computes before fix F25: an additional  - (X 1)(X 1)^T / N *)
+  (* the property: X M X^T with M the alignment matrix (rankUpdate(u,v,a) doubles it), on the
+     CENTRED features Xc = X - mean 1^T = X J.  For every M whose rows and columns sum to zero
+     (what the alignment matrix does) this IS X M X^T (Pencil_Proof_Rot.lltsa_lhs_is_XMXt); the
+     nullspace shift on diag(M) thereby enters as shift * X J X^T (fix F42). *)
+  Definition lltsa_lhs (N : nat) (X : mat F) (W : sparse F) : mat F :=
+    XMXt N (centred X N) (sym2 (dense_of W)).
+  (* what the tree computed between F25 and F42: uncentred X (W + W^T) X^T *)
+  Definition lltsa_lhs_f25 (N : nat) (X : mat F) (W : sparse F) : mat F := XMXt N X (sym2 (dense_of W)).
+  (* what the tree computed between F9 and F25: an additional  - (X 1)(X 1)^T / N *)
   Definition lltsa_lhs_f9 (N : nat) (X : mat F) (W : sparse F) : mat F :=
     XMXt N X (msub (sym2 (dense_of W)) (mconst (/ of_nat N))).
   Definition lltsa_rhs (N : nat) (X : mat F) : mat F := XMXt N X (Jn N).
@@ -82,7 +89,8 @@ Definition ref_pencil (m : method) (N D : nat) (Xl : list (list Qc)) (W : sparse
   let Wd := mof Wl in
   match m with
   | NPE => (mtab D D (XMXt N X (sym2 Wd)), mtab D D (XMXt N X mI))
-  | LLTSA => (mtab D D (XMXt N X (sym2 Wd)), mtab D D (XMXt N X (Jn N)))
+  | LLTSA => let Xc := mof (mtab D N (centred X N)) in
+             (mtab D D (XMXt N Xc (sym2 Wd)), mtab D D (XMXt N X (Jn N)))
   | LPP => (mtab D D (XMXt N X (sym2 Wd)), mtab D D (XMXt N X (mdiag (vof dvl))))
   end.
 
